@@ -107,7 +107,7 @@ func c13(args []string) int {
 	type tup [5]int // min, trunc, ckint, chunk, ps
 	var all []tup
 	for _, mn := range []int{1, 2, 3, 5} {
-		for _, tr := range []int{0, 4, 8} {
+		for _, tr := range []int{0, 1, 4, 8} { // 1 = the lowest value the configuration accepts: the bookkeeping frame alone reaches it
 			for _, ci := range []int{0, 1} {
 				for _, ch := range []int{0, 1, 3} {
 					for _, ps := range []int{512, 4096} {
@@ -119,7 +119,7 @@ func c13(args []string) int {
 	}
 	sel := all
 	if !thorough {
-		// quick: greedy pairwise cover of the 144-configuration product (every pair of values of any two
+		// quick: greedy pairwise cover of the 192-configuration product (every pair of values of any two
 		// dimensions occurs in at least one selected configuration); thorough: the full product.
 		covered := map[[4]int]bool{}
 		sel = nil
